@@ -309,3 +309,40 @@ pub fn par_map<I: Sync, S, R: Send>(
     });
     out.into_inner().unwrap().into_iter().map(|r| r.expect("worker died")).collect()
 }
+
+static WORKER_EXE: std::sync::OnceLock<PathBuf> = std::sync::OnceLock::new();
+
+/// The binary that worker processes are started from: a private copy of the running executable, made once per
+/// run. (A rebuild of the explorer while a check is running replaces `target/debug/mc`; workers started from the
+/// path of the running process would then be missing for a moment, or be another version of the code.)
+pub fn worker_exe() -> PathBuf {
+    WORKER_EXE
+        .get_or_init(|| {
+            let exe = std::env::current_exe().expect("exe");
+            // copies left behind by runs that were killed
+            if let Some(dir) = exe.parent() {
+                for e in std::fs::read_dir(dir).into_iter().flatten().flatten() {
+                    let stale = e.file_name().to_string_lossy().starts_with("mc.worker.")
+                        && e.metadata().and_then(|m| m.modified()).ok().and_then(|t| t.elapsed().ok()).map(|d| d.as_secs() > 6 * 3600).unwrap_or(false);
+                    if stale {
+                        let _ = std::fs::remove_file(e.path());
+                    }
+                }
+            }
+            let copy = exe.with_file_name(format!("mc.worker.{}", std::process::id()));
+            match std::fs::copy(&exe, &copy) {
+                Ok(_) => copy,
+                Err(_) => exe,
+            }
+        })
+        .clone()
+}
+
+/// removes the private copy made by `worker_exe` (called before the process exits)
+pub fn cleanup_worker_exe() {
+    if let Some(p) = WORKER_EXE.get() {
+        if p.file_name().map(|n| n.to_string_lossy().starts_with("mc.worker.")).unwrap_or(false) {
+            let _ = std::fs::remove_file(p);
+        }
+    }
+}
